@@ -49,7 +49,11 @@ func cryptServerFlows(e *cryptEnv) {
 		wrap, removeOld := i%2 == 1, i%4 < 2
 		cs := cryptCase{Kind: "flows", Sender: fmt.Sprintf("server-record-through-storage(storage wrapper=%v, superseded record removed=%v)", wrap, removeOld), Ct: i}
 		p, st := engine.Guard(func() {
-			s := world.MustServer(world.ServerCfg{Backend: world.Inmem, StorageWrap: wrap})
+			be := world.Inmem
+			if i%3 == 2 {
+				be = world.File
+			}
+			s := world.MustServer(world.ServerCfg{Backend: be, StorageWrap: wrap})
 			defer s.Close()
 			old, err := world.NewNode(false, "")
 			var oldInfo, newInfo *types.NodeInformation
@@ -108,6 +112,41 @@ func cryptServerFlows(e *cryptEnv) {
 					r.Count("server_flows_reloaded_record_opens:"+snd.what, 1)
 				}
 			}
+			// the application retires the previous pair: it clears it on the record, stores the record again (a
+			// shorter record over the longer one) and loads it. From then on a message under the retired pair is
+			// a message under a different secret and key ID, and the current pair still works.
+			loaded.PreviousEncryptionKey = nil
+			if err := loaded.Store(s.Ctx, s.Store, s.StoreOpts()...); err != nil {
+				r.Count("server_flows_retire_store_refused", 1)
+				return
+			}
+			again, err := types.LoadNodeInformation(s.Ctx, s.Store, cur.K.KeyID, s.StoreOpts()...)
+			if err != nil {
+				r.Violation("refused-with-matching-key:flows:server-record-reload-after-retiring", fmt.Sprintf("the record does not load again after the previous pair was cleared and the record stored (back end %s): %v", be, err), cs)
+				return
+			}
+			for _, snd := range []struct {
+				what  string
+				creds *types.NodeCredentials
+			}{{"current", cur.Creds}, {"retired", old.Creds}} {
+				env, err := nodeenrollment.EncryptMessage(e.ctx, msg, snd.creds)
+				if err != nil {
+					r.Broken("crypt server flows: encrypt: " + err.Error())
+					return
+				}
+				got := cryptNewMsg("FetchNodeCredentialsRequest")
+				derr := nodeenrollment.DecryptMessage(e.ctx, env, again, got)
+				switch {
+				case snd.what == "retired" && derr == nil:
+					r.Violation("opened-with-other-key:flows:retired-pair-after-reload", fmt.Sprintf("the server cleared the previous pair on the node's record, stored and reloaded it (back end %s, storage wrapper=%v); a message encrypted under the retired pair (another secret, another key ID) still decrypts with the reloaded record (previous pair on the reloaded record: %v)", be, wrap, again.PreviousEncryptionKey != nil), cs)
+				case snd.what == "retired":
+					r.Count("server_flows_retired_pair_refused", 1)
+				case derr != nil || !proto.Equal(got, msg):
+					r.Violation("refused-with-matching-key:flows:server-record-after-retiring", fmt.Sprintf("after the previous pair was retired a message under the current pair does not come out as the original: %v", derr), cs)
+				default:
+					r.Count("server_flows_current_pair_after_retiring", 1)
+				}
+			}
 		})
 		if p != nil {
 			if f := engine.LibraryFrame(st); f != "" {
@@ -119,6 +158,7 @@ func cryptServerFlows(e *cryptEnv) {
 	})
 	r.Require("server_flows_reloaded_record_opens:previous", int64(n*9/10))
 	r.Require("server_flows_reloaded_record_opens:current", int64(n*9/10))
+	r.Require("server_flows_retired_pair_refused", int64(n*8/10))
 }
 
 func cryptFlows(e *cryptEnv) {
